@@ -365,6 +365,10 @@ class Interp(Engine):
         if k is KConst:
             obj = v.const
             if isinstance(obj, PyExc):
+                # library exceptions may carry modelled methods (e.g. grpc.RpcError.code()): ("constfn", value)
+                av = getattr(obj, "attrs", {}).get(attr)
+                if av is not None:
+                    return SV(KConst, None, const=("constfn", av))
                 raise Unsupported("attribute of exception object")
             if isinstance(obj, EmptyLit):
                 # {} / [] used as an object: it is a plain dynamic dict / list
@@ -855,6 +859,8 @@ class Interp(Engine):
             c = f.const
             if isinstance(c, BoundMethod):
                 return self.call_method(st, c, args, kwargs, node)
+            if isinstance(c, tuple) and c and c[0] == "constfn":
+                return c[1]
             if isinstance(c, tuple) and c and c[0] == "specfunc":
                 r = self.reg.specfuncs[c[1]](self, st, *args, **kwargs)
                 return r if isinstance(r, SV) else SV(KBool, r)
